@@ -22,10 +22,10 @@ ASSUMPTIONS = ["a scenario whose written citations are not all extracted at thei
                "many may be skipped",
                "opinion window for 'pin cite within the opinion' is read from eyecite.resolve.MAX_OPINION_PAGE_COUNT"]
 FLOORS = {"quick": {"scenarios_decided": 3000, "ref:short": 1500, "ref:supra": 1500, "ref:id": 1500,
-                    "colliding_scenarios": 500, "must_stay_unresolved_ids": 500, "exhaustive_small": 1760},
+                    "colliding_scenarios": 500, "must_stay_unresolved_ids": 500, "exhaustive_small": 2588, "bare_short_forms": 300},
           "thorough": {"scenarios_decided": 200000, "ref:short": 100000, "ref:supra": 100000, "ref:id": 100000,
                        "colliding_scenarios": 50000, "must_stay_unresolved_ids": 50000,
-                       "exhaustive_small": 11848}}
+                       "exhaustive_small": 20956}}
 EXHAUSTIVE = {"quick": False, "thorough": False}  # only the small-scenario sub-space is exhaustive
 NS = {"quick": 500, "thorough": 20000}
 SHARDS = {"quick": 8, "thorough": 14}
@@ -102,6 +102,24 @@ class Scenario:
         self.last = i
         self.sep()
 
+    def bare_short(self, i):
+        """Short form without a party name: unambiguous only through its unique reporter and volume."""
+        c, r = self.cases[i], self.rng
+        self.text += r.choice(FILL) + " "
+        s = r.choice(["", "See "])
+        st = len(self.text) + len(s)
+        s += f"{c['vol']} {c['rep']}{r.choice(['', ','])} at {c['page'] + r.randint(0, 30)}"
+        self.text += s
+        self.refs.append((st, "short", i, i))
+        self.bare = getattr(self, "bare", 0) + 1
+        self.last = i
+        self.sep()
+
+    def unique_rv(self, i):
+        c = self.cases[i]
+        return not any(j != i and d["cited"] and d["rep"] == c["rep"] and d["vol"] == c["vol"]
+                       for j, d in enumerate(self.cases))
+
     def supra(self, i):
         c, r = self.cases[i], self.rng
         name = r.choice([c["P"], c["D"]])
@@ -167,6 +185,12 @@ def random_scenario(rng, maxp):
             sc.full(pending.pop())
         elif cited and r < 0.36:
             sc.full(rng.choice(cited))      # repeated full citation of the same case
+        elif cited and r < 0.42:
+            i = rng.choice(cited)
+            if sc.unique_rv(i):
+                sc.bare_short(i)
+            else:
+                sc.short(i)
         elif cited and r < 0.52:
             sc.short(rng.choice(cited))
         elif cited and r < 0.68:
@@ -178,7 +202,7 @@ def random_scenario(rng, maxp):
     return sc
 
 
-SMALL_ALPHABET = ["F0", "F1", "S0", "S1", "U0", "U1", "IV", "II"]
+SMALL_ALPHABET = ["F0", "F1", "S0", "S1", "B0", "B1", "U0", "U1", "IV", "II"]
 
 
 def small_scenarios(lmax, shard, nshards):
@@ -191,7 +215,7 @@ def small_scenarios(lmax, shard, nshards):
                 for e in combo:
                     if e[0] == "F":
                         cited.add(e[1])
-                    elif e[0] in "SU" and e[1] not in cited:
+                    elif e[0] in "SUB" and e[1] not in cited:
                         ok = False
                         break
                 if not ok:
@@ -211,6 +235,9 @@ def build_small(rng, collide, combo, maxp):
             sc.short(int(e[1]))
         elif e[0] == "U":
             sc.supra(int(e[1]))
+        elif e[0] == "B":
+            # a bare short form is only unambiguous with a unique reporter+volume; otherwise write the named form
+            (sc.bare_short if sc.unique_rv(int(e[1])) else sc.short)(int(e[1]))
         elif e == "IV":
             sc.idc(True)
         else:
@@ -241,6 +268,7 @@ def judge(sc, rec, case):
                      + " got=" + repr([(c.span(), type(c).__name__) for c in cs]))
         return
     rec.count("scenarios_decided")
+    rec.count("bare_short_forms", getattr(sc, "bare", 0))
     if len({(c["rep"], c["vol"]) for c in cases if c["cited"]}) < sum(1 for c in cases if c["cited"]):
         rec.count("colliding_scenarios")
     if any(r[1] != "full" for r in refs):
